@@ -97,6 +97,15 @@ def worker_main(pid: str, shard_file: str, out_file: str):
     rec = Recorder(pid, shard)
     rec.obs["_worker_started"] = 1
     rng = shard_rng(int(shard.get("_seed", 0)), pid, shard)
+    # configuration every worker varies: the process's local time zone (it is not part of the meaning of any header,
+    # cookie or date werkzeug handles).  Two thirds of the workers run under a zone that is not UTC.
+    import time as _time
+
+    tz = (None, "JST-9", "EST5EDT")[int(shard.get("index", 0) or 0) % 3] if os.environ.get("VERIF_TZ", "vary") == "vary" else None
+    if tz and hasattr(_time, "tzset") and shard.get("_replay") is None:
+        os.environ["TZ"] = tz
+        _time.tzset()
+        rec.obs["workers_under_a_non_utc_time_zone"] = 1
     if shard.get("_replay") is not None:
         mod.replay(unjson(shard["_replay"]), rec)
     else:
